@@ -743,3 +743,101 @@ func namedOf(t types.Type) string {
 	}
 	return ""
 }
+
+// S-copy (C19): the snapshot holds the values, not just room for them. In thread.State every buffer sized by
+// the length of a live value - make(T, len(x)) - is then filled from that same value: a copy(dst, x) whose
+// destination is the buffer (directly or read back from where it was stored) follows the make.
+func ruleSCopyState(c *Ctx) {
+	fn := c.P.Func("bscript/interpreter", "*thread", "State")
+	if fn == nil {
+		c.Undecided("S-copy", "thread.State", token.NoPos, "not found")
+		return
+	}
+	// State and the helpers a later change split it into (functions not in the baseline list)
+	fns := []*ssa.Function{fn}
+	seen := map[*ssa.Function]bool{fn: true}
+	for i := 0; i < len(fns) && i < 20; i++ {
+		for _, b := range fns[i].Blocks {
+			for _, ins := range b.Instrs {
+				if call, ok := ins.(*ssa.Call); ok {
+					if sc := call.Call.StaticCallee(); sc != nil && !seen[sc] && inlineHelper != nil && inlineHelper(sc) && len(sc.Blocks) > 0 {
+						seen[sc] = true
+						fns = append(fns, sc)
+					}
+				}
+			}
+		}
+	}
+	n := 0
+	for _, f := range fns {
+		n += sCopyIn(c, f)
+	}
+	c.MinInstances("S-copy", n, 1)
+}
+
+func sCopyIn(c *Ctx, fn *ssa.Function) int {
+	env := newTermEnv()
+	type cp struct {
+		call     *ssa.Call
+		dst, src string
+	}
+	var copies []cp
+	byAppend := 0
+	for _, b := range fn.Blocks {
+		for _, ins := range b.Instrs {
+			call, ok := ins.(*ssa.Call)
+			if !ok {
+				continue
+			}
+			if bi, ok := call.Call.Value.(*ssa.Builtin); ok && bi.Name() == "copy" && len(call.Call.Args) == 2 {
+				copies = append(copies, cp{call, canonTerm(env.Term(call.Call.Args[0])), canonTerm(env.Term(call.Call.Args[1]))})
+			}
+			// append(<empty list>, x...): a copy that needs no separate fill
+			if bi, ok := call.Call.Value.(*ssa.Builtin); ok && bi.Name() == "append" && len(call.Call.Args) == 2 {
+				if l := newWEval(theProg, fn).eval(call.Call.Args[0]); l != nil && l.String() == seqOf().String() {
+					byAppend++
+					c.OK("S-copy", strings.TrimPrefix(funcName(fn), "(*bscript/interpreter.thread).")+"/append/"+canonTerm(env.Term(call.Call.Args[1])), call.Pos(), "copied by appending to an empty list")
+				}
+			}
+		}
+	}
+	n := 0
+	for _, b := range fn.Blocks {
+		for _, ins := range b.Instrs {
+			mk, ok := ins.(*ssa.MakeSlice)
+			if !ok {
+				continue
+			}
+			ln, ok := mk.Len.(*ssa.Call)
+			if !ok || !isLenCall(ln) {
+				continue
+			}
+			if st, ok := mk.Type().Underlying().(*types.Slice); ok {
+				if _, nested := st.Elem().Underlying().(*types.Slice); nested {
+					continue // a list of buffers: its elements are the buffers looked at here
+				}
+			}
+			src := canonTerm(env.Term(ln.Call.Args[0]))
+			n++
+			// what the buffer is called afterwards: itself, or the place it was stored to
+			names := map[string]bool{canonTerm(env.Term(mk)): true}
+			if mk.Referrers() != nil {
+				for _, r := range *mk.Referrers() {
+					if st, ok := r.(*ssa.Store); ok && st.Val == ssa.Value(mk) {
+						names[strings.TrimPrefix(canonTerm(env.Term(st.Addr)), "&")] = true
+					}
+				}
+			}
+			filled := false
+			for _, cc := range copies {
+				if cc.src == src && names[cc.dst] && (mk.Block() == cc.call.Block() || mk.Block().Dominates(cc.call.Block())) {
+					filled = true
+				}
+			}
+			key := strings.TrimPrefix(funcName(fn), "(*bscript/interpreter.thread).") + "/" + src
+			c.Check(filled, "S-copy", key, mk.Pos(), "the buffer sized by len("+src+") is filled by copy(..., "+src+")",
+				"the snapshot allocates room for "+src+" but never copies it in: the debugger sees zero bytes instead of the live value")
+		}
+	}
+	return n + byAppend
+}
